@@ -226,6 +226,20 @@ def run_c02(tier, seed, out):
                         "ISNs of the full stack come from rand::random() and are not fixed by the seed"]
 
 
+def run_c14_frames(tier, seed, out):
+    """C14, third clause: socket scenarios (stream and datagram) with an attacker machine that injects frames whose
+    PCI / IPv4 / UDP / TCP / ARP headers fail to decode between the legitimate traffic. Judged by TraceSock.tla: the
+    streams stay intact and complete, datagram sockets only see their peer's datagrams, nothing panics, the run ends
+    normally. (Any violation here is a violation of C14: the undecodable frames are the only difference to C02.)"""
+    build_harness(("hv-core",))
+    n = 200 if tier == "quick" else 3000
+    tp = os.path.join(workdir("fn-C14"), "sock-attack.ndjson")
+    args = ["sock-drive", "--seed", str(seed), "--attack", "--out", tp]
+    st = hv_resumable(HV_CORE, args, n)
+    chunked_validate(out, "C14", "TraceSock", tp, args + ["--runs", str(n)], 60000)
+    log("  %d socket scenarios with injected undecodable frames validated (%d restarts after panics)" % (n, st["restarts"]))
+
+
 RUNNERS = {"C02": run_c02, "C13": run_c13, "C16": run_c16, "C20": run_c20, "C04": run_c04, "C05": run_c05, "C06": run_c06}
 SPECS = {"C02": "TraceSock", "C13": "TraceLifecycle", "C16": "TraceRouter", "C20": "TraceDns", "C04": "TraceDemux", "C05": "TraceLink", "C06": "TraceArp"}
 
